@@ -55,7 +55,7 @@ PROPS = {
                 rule="same inputs as C08 pushed through get_freev + subspace_minimization; non-trivial = some but not all variables free",
                 explanation="partial: structure theorems (fixed stay, feasible and maximal alpha*, conditional decrease) on the exact model; exact-minimiser link explored against a dense oracle",
                 assumptions=COMMON_ASSUME),
-    "C10": dict(monitor=K, level="proof", corr=["bfgs", "driver"],
+    "C10": dict(monitor=K, level="proof", corr=["bfgs", "driver", "driver:kern"],
                 rule="histories of <=40 candidate updates (convex / non-convex gradients), maxcor 1..10, n 1..12, and update sequences intercepted in real runs; non-trivial = >=2 accepted and >=1 rejected",
                 explanation="memory-discipline theorems on the memory model for every history; BFGS step SPD+secant over Q; compact=dense explored against a dense recursion",
                 assumptions=COMMON_ASSUME),
